@@ -520,18 +520,21 @@ def u_terminate(c):
     n = c.choose(4, "active")
     done = []
     probes = []
+    failing = c.choose(n + 1, "failing") - 1  # one of them (or none) fails when it is deactivated: a reduction over no event (min())
     for i in range(n):
         def deact(it_, a, k, i=i):
             done.append(i)
             gp.discard(probes[i])
+            if i == failing:
+                raise PyRaise(ValueError("Sequence contains no elements"))
 
         s_ = SummaryFn("deactivate", deact)
         s_.is_method = False
         probes.append(SymObj(f"probe{i}", Val.ref(z3.IntVal(c.new_id())), attrs={"deactivate": s_}))
         gp.add(probes[i])
     st, _ = run(it, it.get_global(P, "_terminate_global_probes"), [])
-    c.prove("no-raise", st == "ok")
-    c.prove("each-active-probe-deactivated-exactly-once", sorted(done) == list(range(n)))
+    c.prove("no-raise", st == "ok" if failing < 0 else st != "ok", note="the failure of a probe is not swallowed either")
+    c.prove("each-active-probe-deactivated-exactly-once", sorted(done) == list(range(n)), note=f"deactivated {sorted(done)} of {n}, probe {failing} fails")
     c.prove("registry-empty-afterwards", len(gp) == 0)
 
 
